@@ -94,4 +94,15 @@ Definition oracle_C09 (x : case) : bool :=
   && (if has_io_error ops || existsb (fun ob => existsb (fun o => match o with SHDropped _ => true | _ => false end) (fst ob)) obs then true
       else is_prefix_blocks (flat_map (fun r => match r with Some ms => flat_map m_payload ms | None => [] end) per_stream) (queued ops)).
 
+(* C06 at the connection handler: a block handed to the handler (QueueOutgoingMessages: the behaviour has already taken the want
+   off its books) must not be lost or overtaken.  In a run without stream faults the blocks of the complete frames written so far,
+   in stream order, are a prefix of the queued blocks — a block that is skipped while a later one is written makes this false. *)
+Definition oracle_C06 (x : case) : bool :=
+  let ops := fst x in let obs := snd x in
+  let streams := seqN (N.to_nat (n_streams ops)) 0 in
+  let per_stream := map (fun i => frames_of (length (stream_bytes i obs) + 1) (stream_bytes i obs)) streams in
+  if has_io_error ops || existsb (fun ob => existsb (fun o => match o with SHDropped _ => true | _ => false end) (fst ob)) obs then true
+  else forallb (fun r => match r with Some _ => true | None => false end) per_stream
+       && is_prefix_blocks (flat_map (fun r => match r with Some ms => flat_map m_payload ms | None => [] end) per_stream) (queued ops).
+
 Definition oracle (x : case) : bool := oracle_C09 x.
